@@ -351,6 +351,7 @@ func main() {
 	}
 	for i := 0; i < count; i++ {
 		c := genCase(rng.New(*seed, uint64(i)))
+		shareURIs(&c, rng.New(*seed, uint64(i)+1<<41))
 		inputs = append(inputs, input{Kind: "run", Case: &c})
 	}
 	{
@@ -644,7 +645,7 @@ func main() {
 		"distinct_nontrivial": distinctNontrivial,
 		"rule": "client runs: histories from splitmix64(seed, case index) over profiles steady/random/event/vod/short/jump/fast/chaos/endlist-late, " +
 			"low-latency variants and 2-3 renditions behind a multivariant playlist (windows 1..10, MSN steps <0..>3, ENDLIST at any poll, " +
-			"VOD/EVENT/untyped, 12 URI forms + 2 unparsable ones, byte ranges none/length/length@start incl. 2^64 edge values); " +
+			"VOD/EVENT/untyped, 12 URI forms + 2 unparsable ones, 2 in 5 of the histories that reach ENDLIST with segments sharing a URI (sub-ranges of one resource with explicit offsets, one repeated URI, URIs repeating with period 2-3),  byte ranges none/length/length@start incl. 2^64 edge values); " +
 			"distinct by SHA-256 of the case; non-trivial = some stream made >= 3 media (segment/part) requests AND the client polled >= 3 playlists",
 		"samples":                       samples,
 		"distribution":                  dist,
